@@ -159,8 +159,9 @@ class Polygon(Shape2D):
         if normal is None:
             self._normal = computed_normal
         else:
-            norm_normal = np.asarray(normal, dtype=np.float64)
-            norm_normal /= np.linalg.norm(normal)
+            # Copy: the caller's array must be neither normalized in place nor stored.
+            norm_normal = np.array(normal, dtype=np.float64)
+            norm_normal /= np.linalg.norm(norm_normal)
 
             if not np.isclose(np.abs(np.dot(computed_normal, norm_normal)), 1):
                 raise ValueError(
